@@ -196,3 +196,35 @@ def run(ctx):
                   "model": RL.coq_show(ctx, "corr", "run_tcase tb", coq_cases[i])}, concrete=False)
     if not built:
         ctx.obligations_failed("validated adversarial mutations of EML trees in both modes")
+
+
+def replay(ctx, data):
+    import json
+    from metapype.eml import validate
+    from metapype.model.node import Node
+    r = data.get("replay", {})
+    if r.get("kind") != "impl-vs-statement":
+        print(json.dumps(data, indent=1)[:4000])
+        return run(ctx)
+    if "tree" in r and r.get("call") == "validate.tree":
+        root = RL.build_tree(r["tree"])
+        ids = {id(n) for n in all_nodes(root)}
+        ff, codes, problems = statement(lambda errs: validate.tree(root, errs), ids)
+    elif "tree" in r:
+        root = RL.build_tree(r["tree"])
+        nodes = all_nodes(root)
+        ids = {id(n) for n in nodes}
+        ff, codes, problems = "OK", [], []
+        for n in nodes:
+            f2, c2, p2 = statement(lambda errs, n=n: validate.node(n, errs), ids)
+            if p2:
+                ff, codes, problems = f2, c2, p2
+                break
+    else:
+        n = RL.build_node(r["node_name"], r["node_content"], [tuple(a) for a in r["node_attributes"]], r["node_children"])
+        ff, codes, problems = statement(lambda errs: validate.node(n, errs), {id(n)})
+    Node.store.clear()
+    print(f"observed ff={ff} codes={codes}; problems={problems}")
+    ctx.case()
+    for key, what in problems:
+        ctx.fail(data.get("key", "C04:" + key), what, dict(r, observed_ff=ff, observed_codes=codes))
